@@ -133,6 +133,8 @@ pub struct Be<V> {
     pub fail_device_calls: std::sync::atomic::AtomicBool,
     /// get_config returns size + delta bytes (C03: wrong-length configuration data)
     pub config_len_delta: std::sync::atomic::AtomicI32,
+    /// handle_event() fails for this event id, without consuming the event (C16: a source that keeps failing)
+    pub fail_event_id: AtomicU64,
 }
 
 impl<V> Be<V> {
@@ -166,6 +168,7 @@ impl<V> Be<V> {
             in_set_config: std::sync::atomic::AtomicBool::new(false),
             fail_device_calls: std::sync::atomic::AtomicBool::new(false),
             config_len_delta: std::sync::atomic::AtomicI32::new(0),
+            fail_event_id: AtomicU64::new(u64::MAX),
             cfg,
         })
     }
@@ -266,6 +269,9 @@ impl<V: VringT<GM> + Send + Sync + 'static> VhostUserBackend for Be<V> {
     }
     fn handle_event(&self, device_event: u16, _evset: EventSet, vrings: &[V], thread_id: usize) -> std::io::Result<()> {
         self.handle_event_calls.fetch_add(1, Ordering::SeqCst);
+        if device_event as u64 == self.fail_event_id.load(Ordering::SeqCst) {
+            return Err(std::io::Error::other("scripted event-handler failure"));
+        }
         if device_event as u64 == self.barrier_id() {
             let hook = {
                 let st = self.st.lock().unwrap();
